@@ -1,18 +1,22 @@
 """Driver shared by C12 / C13: runs an operation sequence on a REAL urllib3 HTTPResponse produced by a real
 HTTPConnectionPool over the in-memory network (vh/net.py) and records what the caller observes.
 
-An event is {"op", "n", "len", "off", "err", "end"}:
+An event is {"op", "n", "len", "off", "err", "end"} (the event alphabet of spec/BodyRules.tla):
   op   read | readn | read1n | read1 | readinto | read0 | stream | chunked | iter | data
   n    the amount (0 when the op has none)
   len  number of bytes returned (0 on error / end of a generator)
-  off  offset of the returned piece inside the expected bytes, computed by comparing bytes:
-       the current delivery position if the piece is the next slice there, else -1; -2 when len = 0
-  err  "" or the class of the exception: one of ERR_U3 names (urllib3 HTTPError family) or "raw:<Class>"
-  end  the call signalled the normal end of the body (read() returned, a sized read returned nothing,
+  off  offset of the returned piece inside the EXPECTED bytes (bodygen: independent stdlib decode): the current
+       delivery position when the piece is the next slice, else the first other place it occurs, else -1;
+       -2 when len = 0
+  err  "" or the class of the exception: a urllib3 HTTPError family name or "raw:<Class>"
+  end  the call signalled the normal end of the body (read() / .data returned, a sized read returned nothing,
        the generator finished)
+Every call carries an EXPLICIT decode_content (readinto and iteration cannot: the response is created with the
+same value as its default; iteration always decodes and is only used with decode=True).
 """
 from __future__ import annotations
 
+import gc
 import logging
 
 from . import bodygen as bg
@@ -46,17 +50,18 @@ def err_class(ex) -> str:
 class Session:
     """One response being consumed."""
 
-    def __init__(self, case: dict, built: dict | None = None, second_request: bool = False):
+    def __init__(self, case: dict, built: dict | None = None):
         import urllib3
         self.case = case
         self.b = built or bg.build(case)
         self.decode = bool(case.get("decode", True))
-        self.expected = self.b["payload"] if self.decode else self.b["raw"]
+        self.expected = self.b["expected"]
         self.pos = 0                      # bytes of `expected` delivered so far (only advanced by next slices)
         self.events = []
         self.gens = {}
         self.resp = None
         self.open_error = ""
+        self.detail = ""                  # text of the first exception (for reports)
         b = self.b
         cut = None if b["cut"] is None else len(b["head"]) + b["cut"]
         first = {"done": False}
@@ -67,11 +72,10 @@ class Session:
                 return vnet.Reply(b["head"] + b["wire"], close=b["close"], eof_after=cut)
             return vnet.Reply(vnet.http_response(200, b"second"))
 
-        seg = case.get("seg") or None
         script = {}
-        if seg:
-            script["seg"] = seg
-        if b["dclass"] in ("badsize", "negsize", "emptysize") or b["dclass"].startswith("corrupt"):
+        if case.get("seg"):
+            script["seg"] = case["seg"]
+        if b["garbled"]:
             script["never_answers"] = True      # a garbled framing may legitimately make the client wait
         self.net = vnet.Net(responder, scripts=lambda cid, addr: dict(script) if cid == 1 else {})
         self.net.__enter__()
@@ -90,6 +94,7 @@ class Session:
             if isinstance(ex, (KeyboardInterrupt, SystemExit)):
                 raise
             self.open_error = err_class(ex)
+            self.detail = self.detail or repr(ex)[:200]
         return self.resp
 
     # ---- one operation
@@ -101,12 +106,11 @@ class Session:
             off = self.pos
             self.pos += ln
         else:
-            off = -1
+            off = self.expected.find(data)
         self.events.append({"op": op, "n": n, "len": ln, "off": off, "err": "", "end": bool(end)})
 
     def _gen(self, kind, n):
-        key = kind
-        if key not in self.gens:
+        if kind not in self.gens:
             r, d = self.resp, self.decode
             if kind == "stream":
                 g = r.stream(n, decode_content=d)
@@ -114,8 +118,8 @@ class Session:
                 g = r.read_chunked(n, decode_content=d)
             else:
                 g = iter(r)
-            self.gens[key] = g
-        return self.gens[key]
+            self.gens[kind] = g
+        return self.gens[kind]
 
     def step(self, op: str, n: int = 0) -> dict:
         r, d = self.resp, self.decode
@@ -147,9 +151,6 @@ class Session:
                     self._piece(op, n, b"", True)
                 else:
                     self._piece(op, n, x, False)
-            elif op == "data":
-                x = r.data
-                self._piece(op, 0, x if x is not None else b"", True)
             else:
                 raise ValueError("unknown op " + op)
         except BaseException as ex:  # noqa: BLE001
@@ -157,46 +158,89 @@ class Session:
                 raise
             if isinstance(ex, ValueError) and str(ex).startswith("unknown op"):
                 raise
+            self.detail = self.detail or repr(ex)[:200]
             self.events.append({"op": op, "n": n, "len": 0, "off": -2, "err": err_class(ex), "end": False})
         return self.events[-1]
 
-    # ---- the connection clause (C13): what happened to the socket, who serves the next request
-    def connection_facts(self) -> dict:
-        import gc
-        first_open = 1 in self.net.open_conns()
-        ndials = len(self.net.dials)
-        facts = {"first_open_before": first_open, "second": "none", "second_err": ""}
-        try:
-            r2 = self.pool.urlopen("GET", "/second", preload_content=True, retries=False, redirect=False,
-                                   pool_timeout=0.01)
-            cids = [cid for cid, rq in self.net.requests() if rq.target == "/second"]
-            if not cids:
-                facts["second"] = "none"
-            else:
-                facts["second"] = "same" if cids[-1] == 1 else "new"
-            facts["second_ok"] = bool(r2.data == b"second")
-        except BaseException as ex:  # noqa: BLE001
-            if isinstance(ex, (KeyboardInterrupt, SystemExit)):
-                raise
-            facts["second_err"] = err_class(ex)
-            cids = [cid for cid, rq in self.net.requests() if rq.target == "/second"]
-            if cids:
-                facts["second"] = "same" if cids[-1] == 1 else "new"
-        facts["dials"] = len(self.net.dials)
-        facts["dialed_new"] = len(self.net.dials) > ndials
-        gc.collect()
-        facts["first_open_after"] = 1 in self.net.open_conns()
-        return facts
+    def preload(self) -> dict:
+        """preload_content=True: the body is read inside urlopen; .data is the observation."""
+        r = self.open(preload=True)
+        if r is None:
+            self.events.append({"op": "data", "n": 0, "len": 0, "off": -2, "err": self.open_error, "end": False})
+        else:
+            x = r.data
+            self._piece("data", 0, x if x is not None else b"", True)
+        return self.events[-1]
 
-    def close(self):
+    # ---- the connection clause (C13): the response is dropped, then a second request goes through the same pool
+    def drop_response(self):
         for g in self.gens.values():
             try:
                 g.close()
             except BaseException:  # noqa: BLE001
                 pass
+        self.gens = {}
+        self.resp = None
+        gc.collect()
+
+    def connection_facts(self) -> dict:
+        """{"second": which socket served the next request on the same pool ("same" | "new" | "none"),
+            "firstopen": the first socket is still open afterwards} -- ground truth from the peer side."""
+        self.drop_response()
+        facts = {"second": "none", "firstopen": False, "second_err": ""}
         try:
-            if self.resp is not None:
-                self.resp.close()
+            r2 = self.pool.urlopen("GET", "/second", preload_content=True, retries=False, redirect=False,
+                                   pool_timeout=0.01)
+            facts["second_ok"] = bool(r2.data == b"second")
+        except BaseException as ex:  # noqa: BLE001
+            if isinstance(ex, (KeyboardInterrupt, SystemExit)):
+                raise
+            facts["second_err"] = err_class(ex)
+        cids = [cid for cid, rq in self.net.requests() if rq.target == "/second"]
+        if cids:
+            facts["second"] = "same" if cids[-1] == 1 else "new"
+        gc.collect()
+        facts["firstopen"] = 1 in self.net.open_conns()
+        return facts
+
+    def close(self):
+        try:
+            self.drop_response()
             self.pool.close()
         finally:
             self.net.__exit__()
+
+
+def run_case(case: dict, ops: list, drain=None, preload: bool = False, built: dict | None = None, cap: int = 400000):
+    """Execute `ops` ([(op, n)]) on a fresh response for `case`; then, unless a call ended or raised, keep
+    calling `drain` (op, n) until one does.  Returns the trace record for spec/Body_Trace.tla."""
+    s = Session(case, built)
+    try:
+        done = False
+        if preload:
+            s.preload()
+            done = True
+        else:
+            if s.open() is None:
+                s.events.append({"op": ops[0][0] if ops else "read", "n": 0, "len": 0, "off": -2,
+                                 "err": s.open_error, "end": False})
+                done = True
+            else:
+                for op, n in ops:
+                    e = s.step(op, n)
+                    if e["err"]:
+                        done = True
+                        break
+                ended = any(e["end"] and not e["err"] for e in s.events)
+                if not done and not ended and drain is not None:
+                    for _ in range(cap):
+                        e = s.step(*drain)
+                        if e["err"] or e["end"]:
+                            break
+        conn = s.connection_facts()
+        b = s.b
+        return {"facts": b["facts"], "layout": b["layout3"], "cutat": b["cutat"], "events": s.events,
+                "conn": {"second": conn["second"], "firstopen": bool(conn["firstopen"])}, "final": True,
+                "detail": s.detail, "second_err": conn["second_err"]}
+    finally:
+        s.close()
